@@ -48,12 +48,18 @@ def main():
                 print('setup: generator of %s failed: %r' % (name, e))
         files = [os.path.relpath(f, coqrun.COQ_DIR).replace('.v', '.vo') for f in coqrun.source_files()]
         try:
-            coqrun.make(files, timeout=3000)
+            coqrun.make(files, timeout=3000, keep_going=True)
         except coqrun.CoqError as e:
-            print('setup: make failed at %s:%s: %s' % (e.file, e.line, e))
-            print(e.output[-3000:])
-            return 1
-        print('setup: built %d Coq files' % len(files))
+            # every check re-builds its own files and reports what does not compile; setup only pre-builds
+            print('setup: some files did not build (first error %s:%s: %s)' % (e.file, e.line, str(e)[:300]))
+            common = [f for f in files if f.startswith('Common/')]
+            try:
+                coqrun.make(common, timeout=600)
+            except coqrun.CoqError as e2:
+                print('setup: Common library does not build: %s' % e2)
+                return 1
+        built = sum(1 for f in files if os.path.exists(os.path.join(coqrun.COQ_DIR, f)))
+        print('setup: built %d of %d Coq files' % (built, len(files)))
         return 0
     if a.replay:
         return runner.run_replay(a.replay)
